@@ -92,7 +92,9 @@ static KEYWORDS: [&str; 64] = [
     "yield",
 ];
 pub(crate) fn ident(id: &str) -> RcDoc<'_> {
-    if KEYWORDS.contains(&id) {
+    // A reserved word gets a trailing underscore; so does a reserved word that already has some, so that
+    // `class` and `class_` stay two different identifiers.
+    if KEYWORDS.contains(&id.trim_end_matches('_')) {
         str(id).append("_")
     } else {
         str(id)
